@@ -600,6 +600,116 @@ func bodyPersistWindow(conf map[string]interface{}) func(c *drv.Ctx) {
 	}
 }
 
+// ---- several flush groups: five unsafe batches pile up behind the parked persister as separate
+// in-memory segments, the last one obsoleting one document in the first and one in the third
+// segment (every segment keeps live documents); with two persister workers one round cuts them into
+// three flush groups that are merged in memory concurrently. A reader thread runs across the round.
+
+var manyWorkload = []lww.Batch{
+	{{Kind: "I", ID: "a", V: 1}, {Kind: "I", ID: "b", V: 1}, {Kind: "S", ID: "seq", V: 1}},
+	{{Kind: "I", ID: "c", V: 1}, {Kind: "I", ID: "d", V: 1}, {Kind: "S", ID: "seq", V: 2}},
+	{{Kind: "I", ID: "e", V: 1}, {Kind: "I", ID: "f", V: 1}, {Kind: "S", ID: "seq", V: 3}},
+	{{Kind: "I", ID: "g", V: 1}, {Kind: "I", ID: "h", V: 1}, {Kind: "S", ID: "seq", V: 4}},
+	{{Kind: "D", ID: "a"}, {Kind: "I", ID: "e", V: 2}, {Kind: "S", ID: "seq", V: 5}},
+	{{Kind: "I", ID: "c", V: 2}, {Kind: "S", ID: "seq", V: 6}},
+}
+var manyIDs = []string{"a", "b", "c", "d", "e", "f", "g", "h", "zz"}
+
+func manyModel(q int) *lww.Model {
+	m := lww.New()
+	for j := 0; j < q; j++ {
+		m.Apply(manyWorkload[j])
+	}
+	return m
+}
+
+func bodyManyFlushGroups(conf map[string]interface{}) func(c *drv.Ctx) {
+	return func(c *drv.Ctx) {
+		g := &persistGate{armed: true, parked: make(chan int, 1), release: make(chan int, 1)}
+		pgate = g
+		defer func() { pgate = nil }()
+		var idx bleve.Index
+		vrt.Free(func() {
+			cf := bx.CopyConfig(conf)
+			cf["eventCallbackName"] = "verif-c04-persister-gate"
+			var err error
+			idx, err = bleve.NewUsing(c.Dir+"/idx", bleve.NewIndexMapping(), scorch.Name, scorch.Name, cf)
+			if err != nil {
+				panic(err)
+			}
+		})
+		vrt.Recv(g.parked)
+		adv, _ := idx.Advanced()
+		submitted, returned := 0, 0
+		do := func(j int) {
+			submitted = j
+			if err := lww.ExecBatch(idx, manyWorkload[j-1]); err != nil {
+				c.Fail("error:batch", "Batch %d: %v", j, err)
+			}
+			returned = j
+		}
+		view := func(what string) {
+			atLeast := returned
+			r, err := adv.Reader()
+			if err != nil {
+				c.Fail("error:reader", "Reader: %v", err)
+				return
+			}
+			defer r.Close()
+			v, _ := r.GetInternal([]byte("seq"))
+			q := 0
+			if v != nil {
+				q, _ = strconv.Atoi(string(v))
+			}
+			if q > submitted || q < atLeast {
+				c.Fail("stale-read:reader", "%s: reader shows batch %d, expected between %d (returned) and %d (submitted)", what, q, atLeast, submitted)
+			} else if bad := manyModel(q).CheckReader(r, manyIDs, []string{"seq"}); len(bad) > 0 {
+				c.Fail("torn-view:reader", "%s: one reader shows batch %d (internal key) but: %s", what, q, strings.Join(bad, "; "))
+			}
+			c.Observe(fmt.Sprintf("%s=%d", what, q))
+		}
+		for j := 1; j <= 5; j++ {
+			do(j)
+		}
+		held, err := adv.Reader()
+		if err != nil {
+			c.Fail("error:reader", "Reader: %v", err)
+			return
+		}
+		if st, err := bx.Scorch(idx).VerifFileState(); err == nil {
+			c.Observe(fmt.Sprintf("unpersisted=%d,with-deletions=%d", st.MemSegments, st.MemSegmentsWithDeletions))
+		}
+		var wg vrt.WaitGroup
+		wg.Add(2)
+		vrt.Go(func() {
+			defer wg.Done()
+			view("during-1")
+			view("during-2")
+		})
+		vrt.Go(func() {
+			defer wg.Done()
+			do(6)
+		})
+		vrt.Send(g.release, 1)
+		wg.Wait()
+		view("after-batch-6")
+		vrt.WaitIdle() // merged / persisted segments have replaced the in-memory ones
+		view("after-persist-settled")
+		if bad := manyModel(5).CheckReader(held, manyIDs, []string{"seq"}); len(bad) > 0 {
+			c.Fail("reader-changed", "a reader held since batch 5 no longer shows that state: %s", strings.Join(bad, "; "))
+		}
+		held.Close()
+		vrt.Free(func() {
+			if bad := manyModel(6).Check(idx, manyIDs, []string{"seq"}); len(bad) > 0 {
+				c.Fail("final-state", "after all batches: %s", strings.Join(bad, "; "))
+			}
+			if err := idx.Close(); err != nil {
+				c.Fail("error:close", "Close: %v", err)
+			}
+		})
+	}
+}
+
 // ---- two writers on the SAME document ids: whatever the interleaving, once both calls have returned
 // the index must equal one of the two serial orders (each call is one batch: all-or-nothing), and a
 // reader obtained in between must show the initial state or the state after some serial prefix.
@@ -783,6 +893,8 @@ func Scenarios() []drv.Scenario {
 			Body: bodyPersistWindow(unsafe2), Quick: d1r, Thorough: []drv.Phase{{Bound: 1}, {Bound: 2, Filter: "restricted"}}},
 		{Name: "S9-delete-only-batch-lands-in-persist-window-legacy-flush", Doc: "the same with one persister worker (legacy one-shot in-memory merge + flush)",
 			Body: bodyPersistWindow(map[string]interface{}{"unsafe_batch": true}), Quick: d1r, Thorough: []drv.Phase{{Bound: 1}, {Bound: 2, Filter: "restricted"}}},
+		{Name: "S11-five-unpersisted-segments-flushed-in-three-groups-by-two-workers", Doc: "five unsafe batches pile up behind a parked persister (segments keep live documents, two carry deletions); one round with two workers merges three flush groups in memory while a reader thread and a sixth batch run",
+			Body: bodyManyFlushGroups(unsafe2), Quick: d1r, Thorough: []drv.Phase{{Bound: 1}, {Bound: 2, Filter: "restricted"}}},
 		{Name: "S5-upsidedown-gtreap", Class: "upsidedown", Doc: "2 writers × 2 batches ∥ reader + searcher on upsidedown/gtreap",
 			Body: body(cfg{engine: "upsidedown", writers: 2, batches: 2, searcher: true}), Quick: d1r,
 			Thorough: []drv.Phase{{Bound: 2}}},
